@@ -51,6 +51,18 @@ PROPS["C10"] = {
     "level_note": LEVEL_NOTE_GBN,
 }
 
+PROPS["C06"] = {
+    "pkgs": ["gbn"],
+    "level": "exploration",
+    "quick_budget": 60, "thorough_budget": 1800,
+    "rule": "Runs of the shape clean handshake -> fault prefix (0..39 virtual seconds of random drop/dup/delay/blackouts, or scripted tail loss of the last packets of a burst followed by application silence) -> reliable suffix with latency below the resend timeout; N from 1..254, adaptive or static resend timeouts (100 ms .. 8 s, i.e. below, at and above the peer's ping interval), keepalive off / symmetric / the mailbox's 7s-5s-3s, uni- and bidirectional bursts. Oracles at a horizon max(10 min, 50x(ping+pong), 200x resend timeout at heal time) after the last fault." + SIG_RULE,
+    "assumptions": ["time bounds are generous multiples of the configured timers; the defects they are meant to catch are unbounded stalls", "closure of an endpoint is observed white-box (quit channel)"],
+    "components": GBN_COMPONENTS,
+    "expected_probes": ["c06.all-delivered", "c06.closed-by-keepalive", "c06.tail-dropped"],
+    "level_text": EXPL_TEXT,
+    "level_note": LEVEL_NOTE_GBN,
+}
+
 # Properties that are pure functions of their input: no schedule, clock, fault
 # or interleaving enters them, so deterministic simulation has nothing to decide.
 NOT_APPLICABLE = {
